@@ -29,22 +29,25 @@ def settable(lst):
     return len(set(lst)) == len(lst)
 
 
-def file_of(lst, tag):
+def file_of(lst, tag, spell=None):
+    """spell[i]: None = ordinary value, "null" = `k=` (no value at all), "empty" = `k= ` (empty text), "quoted" = `k=""`"""
     out = b""
     cur = None
     for i, (g, k) in enumerate(lst):
         if g != cur:
             out += b"[" + g + b"]\n"
             cur = g
-        out += k + b"=" + tag + str(i).encode() + b"\n"
+        sp = spell[i] if spell else None
+        v = {None: tag + str(i).encode(), "null": b"", "empty": b" ", "quoted": b'""'}[sp]
+        out += k + b"=" + v + b"\n"
     return out
 
 
-def build_object(s, slot, lst, tag, how, ctor):
+def build_object(s, slot, lst, tag, how, ctor, spell=None):
     """how: 'parse' | 'set'; ctor for 'set' (and for empty lists): 'key' | 'ini' | 'opt'"""
     if how == "parse" and lst:
         path = b"/m" + str(slot).encode() + b".conf"
-        s.file(path, file_of(lst, tag))
+        s.file(path, file_of(lst, tag, spell))
         s.add("RF", slot, h(path), h(b"="), h(b"#"))
     else:
         if ctor == "key":
@@ -57,10 +60,10 @@ def build_object(s, slot, lst, tag, how, ctor):
             s.add("SET", slot, "str", h(g), h(k), h(tag + str(i).encode()))
 
 
-def merge_scenario(sid, base, over, how_b, how_o, ctor_b="opt", ctor_o="opt"):
-    s = Scenario(sid, {"base": base, "over": over, "how": (how_b, how_o, ctor_b, ctor_o)})
-    build_object(s, 0, base, b"b", how_b, ctor_b)
-    build_object(s, 1, over, b"o", how_o, ctor_o)
+def merge_scenario(sid, base, over, how_b, how_o, ctor_b="opt", ctor_o="opt", spell_b=None, spell_o=None):
+    s = Scenario(sid, {"base": base, "over": over, "how": (how_b, how_o, ctor_b, ctor_o), "spell": (spell_b, spell_o)})
+    build_object(s, 0, base, b"b", how_b, ctor_b, spell_b)
+    build_object(s, 1, over, b"o", how_o, ctor_o, spell_o)
     s.add("RAW", 0)
     s.add("RAW", 1)
     s.add("M", 2, 0, 1)
